@@ -121,8 +121,7 @@ def check_execution(c, sc, answers, res, nm, rec, out, case):
         # replace-all mode removes and re-inserts the atoms common to both patterns: they must come back where they were
         cell = c['cell']; inv = np.linalg.inv(cell)
         full = shared_map(c['pel'], c['pp'], c['rel'], c['rpos'])
-        P_all = np.vstack([c['pp'], c['rpos']]) if len(c['rel']) else c['pp']
-        cp = cconst(P_all, *resolve_hints(c['pp'])) if len(c['pp']) > 1 else 1.0
+        cp = combined_c(c['pp'], c['rpos'])
         tail = [(x[0], np.array(x[-1])) for x in oa[len(oa) - len(sel) * len(ins_idx):]]
         for mi in sel:
             eps = kabsch(c['pp'], np.asarray(rec[1][mi]))[0]
